@@ -255,7 +255,8 @@ func assignOne(destValue reflect.Value, taken any, to string) (reflect.Value, er
 				}
 
 				if !toSet.IsValid() {
-					destValue.Interface().(map[string]any)[path] = nil
+					// a nil value: the key is set to the nil value of the map's element type
+					destValue.SetMapIndex(key, reflect.Zero(destValue.Type().Elem()))
 				} else {
 					destValue.SetMapIndex(key, toSet)
 				}
@@ -530,10 +531,6 @@ func checkAndExtractToMapKey(toMapKey string, output, toSet reflect.Value) (key 
 	}
 
 	if !toSet.IsValid() {
-		if output.Type() != reflect.TypeOf(map[string]any{}) {
-			return reflect.Value{}, fmt.Errorf("field mapping from a zero reflect.Value to map field whose map type is not map[string]any: %v", output.Type())
-		}
-
 		switch output.Type().Elem().Kind() {
 		case reflect.Map, reflect.Slice, reflect.Ptr, reflect.Interface:
 			return reflect.ValueOf(toMapKey), nil
